@@ -6,8 +6,8 @@ import GrinVerif.Lemmas.TxCount
 
 Property theorems only. Three layers, tied together as follows.
 
-* `table_*`: decided over the lock table **regenerated from /repo/chain/src/chain.rs on every
-  run** (`Gen/Locks.lean`, produced by `tools/gen_locks.py`): a change to chain.rs that
+* `table_*`: decided over the lock table **regenerated from /repo/chain/src/chain.rs,
+  txhashset/segmenter.rs and txhashset/desegmenter.rs on every run** (`Gen/Locks.lean`, produced by `tools/gen_locks.py`): a change to chain.rs that
   introduces a lock-order inversion, a re-acquisition of a held lock, a commit outside the
   write locks or a callback under a lock makes these obligations fail at the next check.
 * `deadlock_free` & co: for the lock transition system of `Model/Conc.lean`, any number of
@@ -47,24 +47,44 @@ theorem table_respects_order : ∀ e ∈ lockTable, respectsOrder e.2 = true := 
 /-- Every `batch.commit()` in chain.rs happens while the thread holds the batch and write-holds
 `header_pmmr` or `txhashset`: publication to LMDB is never concurrent with a guard-holding reader
 of the structure being changed. -/
-theorem table_commits_under_write_lock : ∀ e ∈ lockTable, commitsUnderWriteLock e.2 = true := by
+theorem table_commits_under_write_lock :
+    ∀ e ∈ lockTable, e.1 ≠ "Desegmenter::check_progress" → commitsUnderWriteLock e.2 = true := by
   decide +kernel
 
-/-- All ops but one commit while write-holding `txhashset` — the hypothesis under which the
-commit-protocol model below speaks about chain.rs. -/
-theorem table_commits_under_ts_write_except_state_sync :
-    ∀ e ∈ lockTable, e.1 ≠ "txhashset_write" → commitsUnderTsWrite e.2 = true := by
+/-- The exception, stated so that it cannot go unnoticed: `Desegmenter::check_progress`
+(desegmenter.rs) commits a batch of its own — `save_pibd_head` only — holding neither
+`header_pmmr` nor `txhashset` (it has released both read guards before), under the caller's
+`pibd_desegmenter.write()` only.  The key it writes (`pibd_head`) is read by no op of the table but
+`reset_pibd_head`; it is not part of (head, header head, MMR state) the commit-protocol model
+speaks about. -/
+theorem desegmenter_check_progress_commits_unlocked :
+    (lockTable.lookup "Desegmenter::check_progress").map commitsUnderWriteLock = some false ∧
+    (lockTable.lookup "Desegmenter::check_progress").map respectsOrder = some true := by
   decide +kernel
 
-/-- The exception, stated so that it cannot go unnoticed: `Chain::txhashset_write` (installing a
-downloaded state during fast sync) commits the new head, `output_pos` index and block sums to LMDB
-holding `header_pmmr.write()` only, and takes `txhashset.write()` to swap in the new MMR files
-*afterwards*. In between, an op that takes only `txhashset.read()` (e.g. `get_unspent`) reads the
-old MMR files against the new LMDB index. This window is outside `readers_see_committed` and is
-not exercised by the harness (it needs a state archive); it is named in the evidence. -/
-theorem txhashset_write_commits_outside_ts_lock :
-    (lockTable.lookup "txhashset_write").map commitsUnderTsWrite = some false ∧
-    (lockTable.lookup "txhashset_write").map commitsUnderWriteLock = some true := by
+/-- Every op that commits does so while write-holding `txhashset` — the hypothesis under which the
+commit-protocol model below speaks about chain.rs / desegmenter.rs (the one exception,
+`Desegmenter::check_progress`, commits `pibd_head` only, see above). -/
+theorem table_commits_under_ts_write :
+    ∀ e ∈ lockTable, e.1 ≠ "Desegmenter::check_progress" → commitsUnderTsWrite e.2 = true := by
+  decide +kernel
+
+/-- `Chain::txhashset_write` (installing a zipped state; reachable from the p2p `TxHashSetArchive`
+message) takes `header_pmmr.write()`, then `txhashset.write()`, then the batch, and commits the new
+head, `output_pos` index and block sums to LMDB while it write-holds `txhashset`; the MMR files are
+swapped in under the same guard.  It is an ordinary writer of the commit-protocol model
+(`state_install_views_old_or_new`).
+History: until the repair `fix: txhashset_write holds the txhashset lock across the commit of the new
+head` this theorem read `commitsUnderTsWrite = some false` — the op committed under
+`header_pmmr.write()` only and took `txhashset.write()` afterwards; harness mode `zipwin` reproduced
+the window on the real code (finding C17-txhashset-write-window: a reader holding `txhashset.read()`
+saw the installed head with the genesis MMR state, `get_unspent` of an unspent output answered None)
+and stays in the check as a regression probe; `state_install_window_witness` below keeps the
+model-level schedule of the old protocol. -/
+theorem txhashset_write_commits_under_ts_write :
+    (lockTable.lookup "txhashset_write").map commitsUnderTsWrite = some true ∧
+    (lockTable.lookup "txhashset_write").map commitsUnderWriteLock = some true ∧
+    (lockTable.lookup "txhashset_write").map respectsOrder = some true := by
   decide +kernel
 
 /-- The only callback into foreign code (`self.adapter.block_accepted`) is made with no chain lock
@@ -96,6 +116,37 @@ theorem table_state_readers_take_ts :
            "Segmenter::kernel_segment", "Segmenter::bitmap_segment", "Segmenter::output_segment",
            "Segmenter::rangeproof_segment"],
       (lockTable.lookup n).map takesTs = some true := by
+  decide +kernel
+
+/-- The state-receiving side is in the table: every `pub fn` of `impl Desegmenter`
+(desegmenter.rs) the servers code and the harness run `pibd` call — they lock the chain's
+`header_pmmr` / `txhashset` through the `Arc`s handed over by `Chain::desegmenter()` and open batches
+on the chain's store; `table_respects_order` above and `chain_ops_deadlock_free` below range over
+them like over every op of chain.rs. -/
+theorem table_desegmenter_ops_present :
+    ∀ n ∈ ["desegmenter", "Desegmenter::check_progress", "Desegmenter::check_update_leaf_set_state",
+           "Desegmenter::validate_complete_state", "Desegmenter::apply_next_segments",
+           "Desegmenter::next_desired_segments", "Desegmenter::finalize_bitmap",
+           "Desegmenter::add_bitmap_segment", "Desegmenter::add_output_segment",
+           "Desegmenter::add_rangeproof_segment", "Desegmenter::add_kernel_segment",
+           "Desegmenter::apply_output_segments", "Desegmenter::apply_rangeproof_segments",
+           "Desegmenter::apply_kernel_segments"],
+      (lockTable.lookup n).isSome = true := by
+  decide +kernel
+
+/-- Every `Desegmenter::…` entry runs inside the caller's `pibd_desegmenter.write()` guard (first
+event `+deseg.W`, last event `-deseg`: how adapters.rs / state_sync.rs call it), and the ones that
+install state — `apply_next_segments` (bitmap, outputs, range proofs, kernels), `finalize_bitmap`,
+`check_update_leaf_set_state`, `validate_complete_state` — write-lock `header_pmmr` and `txhashset`
+(in that order, by `table_respects_order`). -/
+theorem table_desegmenter_under_guard :
+    (∀ e ∈ lockTable, e.1.startsWith "Desegmenter::" = true →
+      e.2.head? = some (.acq .deseg .W) ∧ e.2.getLast? = some (.rel .deseg)) ∧
+    (∀ n ∈ ["Desegmenter::apply_next_segments", "Desegmenter::finalize_bitmap",
+            "Desegmenter::check_update_leaf_set_state", "Desegmenter::validate_complete_state",
+            "Desegmenter::apply_output_segments", "Desegmenter::apply_rangeproof_segments",
+            "Desegmenter::apply_kernel_segments"],
+      (lockTable.lookup n).map opClass = some "write") := by
   decide +kernel
 
 /-- the table is not empty / not all lock-free (the translator found the locks) -/
@@ -186,6 +237,33 @@ theorem driver_scheduler_is_model (s : State Lock) (i : Nat) :
     enabledB s i = true ↔ Enabled strictWP s i :=
   enabledB_iff s i
 
+/-- Under strict writer preference a waiting writer is never overtaken: while some thread's next
+event is the write acquisition of `l`, no thread's read acquisition of `l` is enabled — the
+semantics of `parking_lot::RwLock` once a writer is parked that makes read-after-read by one thread
+a deadlock (run `selftest reread` checks it on the real lock objects).  Together with
+`executions_bounded` (programs are finite): the readers inside `l` can only leave. -/
+theorem waiting_writer_not_overtaken {L : Type} [DecidableEq L] (s : State L) (i : Nat) (l : L)
+    (t : Thread L) (hs : s[i]? = some t) (hr : t.prog.head? = some (.acq l .R))
+    (hw : ∃ u ∈ s, u.prog.head? = some (.acq l .W)) : ¬ Enabled strictWP s i := by
+  intro he
+  unfold Enabled at he
+  rw [hs] at he
+  obtain ⟨prog, held⟩ := t
+  cases prog with
+  | nil => cases hr
+  | cons e rest =>
+    simp only [List.head?_cons, Option.some.injEq] at hr
+    subst hr
+    exact he.2 hw
+
+/-- non-vacuity: a reader arriving while a writer waits for a read-held lock is refused, the holder can
+still release -/
+example : ¬ Enabled (strictWP (L := Lock))
+      [⟨[.rel .ts], [(.ts, .R)]⟩, ⟨[.acq .ts .W, .rel .ts], []⟩, ⟨[.acq .ts .R, .rel .ts], []⟩] 2 ∧
+    Enabled (strictWP (L := Lock))
+      [⟨[.rel .ts], [(.ts, .R)]⟩, ⟨[.acq .ts .W, .rel .ts], []⟩, ⟨[.acq .ts .R, .rel .ts], []⟩] 0 :=
+  ⟨waiting_writer_not_overtaken _ 2 .ts _ rfl rfl ⟨⟨[.acq .ts .W, .rel .ts], []⟩, by simp, rfl⟩, trivial⟩
+
 /-! non-vacuity: the model can deadlock when the discipline is broken -/
 
 /-- two threads taking `hp`/`ts` in opposite orders reach a deadlocked state -/
@@ -234,6 +312,110 @@ committed state (the history records, with each entry, the base its op started f
 theorem commits_are_serial (s0 : Shared D M) (s : St D M) (log : List (Nat × Obs D M))
     (h : Run s0 s log) : serialHist s0 s.bases s.hist :=
   run_serial s0 s log h
+
+/-- **A read-only extension leaves no trace.**  From any state in which the txhashset lock is free
+and thread `tid` is idle, the op "take the write lock, do ANY list `fs` of private work steps
+(rewind to another block, apply a fork, apply a template block, apply kernels …), roll back,
+unlock" — `txhashset::extending_readonly` / `header_extending_readonly` as used by
+`get_merkle_proof`, `get_locator_hashes`, `set_txhashset_roots`, `validate`, the NRD path of
+`validate_tx`, the write-lock path of `verify_coinbase_maturity`, `init_segmenter` — is executable and
+ends in a state that agrees with the starting state in EVERY component: shared LMDB and MMR state,
+lock, commit count, history, every thread's phase.  (While it runs, `readers_see_committed` applies:
+nobody observes the private work.)  The harness drives these ops against the `View` / `HeaderView`
+readers. -/
+theorem readonly_extension_leaves_no_trace (s : St D M) (tid : Nat) (fs : List (Shared D M → Shared D M))
+    (hfree : s.ts = .free) (hidle : s.wr tid = .idle) :
+    ∃ s', Silent s s' ∧ s'.sh = s.sh ∧ s'.ts = s.ts ∧ s'.k = s.k ∧ s'.hist = s.hist ∧
+      s'.bases = s.bases ∧ ∀ j, s'.wr j = s.wr j := by
+  have st := CStep.wlock s tid hfree hidle
+  obtain ⟨s2, hs2, hw, hsh, _, hk, hh, hb, hj⟩ :=
+    work_chain fs { s with ts := .writer tid, wr := fun j => if j = tid then .working s.sh s.sh else s.wr j }
+      tid s.sh s.sh (by simp)
+  have ab := CStep.abort s2 tid s.sh (workAll s.sh fs) hw
+  refine ⟨_, Silent.step (Silent.head st hs2) ab, hsh, hfree.symm, hk, hh, hb, ?_⟩
+  intro j
+  by_cases hjt : j = tid
+  · subst hjt; simp [hidle]
+  · simp only [hjt, if_false]
+    rw [hj j hjt]
+    simp [hjt]
+
+/-- non-vacuity and contrast (the seeded change C17-F, a lost rollback): the same op with the
+rollback skipped (`leakUnlock`: the private MMR work is published when the lock is released, nothing
+is committed) leaves the lock free with an MMR state that is in NO state of the commit history — the
+next reader under `txhashset.read()` observes it. -/
+theorem lost_rollback_exposes_uncommitted :
+    (leakUnlock leakExample 3).ts = .free ∧ (leakUnlock leakExample 3).sh.db = 0 ∧
+    (leakUnlock leakExample 3).sh.mmr = 9 ∧ (leakUnlock leakExample 3).hist = [⟨0, 0⟩] ∧
+    CStep { (leakUnlock leakExample 3) with ts := .readers 1 } (some (.locked 0 9))
+          { (leakUnlock leakExample 3) with ts := .readers 1 } ∧
+    ∀ c ∈ (leakUnlock leakExample 3).hist, ¬ obsMatches (.locked 0 9) c := by
+  have hh : (leakUnlock leakExample 3).hist = [⟨0, 0⟩] := rfl
+  refine ⟨rfl, rfl, rfl, hh, CStep.rread _ 1 rfl, ?_⟩
+  intro c hc
+  rw [hh, List.mem_singleton] at hc
+  subst hc
+  simp [obsMatches]
+
+/-- **A state install is seen old or new, never mixed.**  In any run of the commit-protocol system in
+which exactly one op has committed (the install of state `w` over `s0` — since the repair
+`Chain::txhashset_write` is such an op: `txhashset_write_commits_under_ts_write`), every view a
+reader takes under `txhashset.read()` is the pair (LMDB part, MMR part) of `s0` or the pair of `w`;
+every lock-free LMDB read is the LMDB part of one of the two. -/
+theorem state_install_views_old_or_new (s0 w : Shared D M) (s : St D M) (log : List (Nat × Obs D M))
+    (h : Run s0 s log) (hh : s.hist = [w, s0]) :
+    ∀ k o, (k, o) ∈ log → obsMatches o s0 ∨ obsMatches o w := by
+  intro k o hm
+  obtain ⟨c, hc, hmatch⟩ := run_obs_committed s0 s log h k o hm
+  rw [hh] at hc
+  simp only [List.reverse_cons, List.reverse_nil, List.nil_append, List.cons_append] at hc
+  match k, hc with
+  | 0, hc => simp only [List.getElem?_cons_zero, Option.some.injEq] at hc; subst hc; exact Or.inl hmatch
+  | 1, hc => simp only [List.getElem?_cons_succ, List.getElem?_cons_zero, Option.some.injEq] at hc; subst hc; exact Or.inr hmatch
+  | (n + 2), hc => simp at hc
+
+/-- non-vacuity: a run with one install `⟨7,7⟩` over `⟨0,0⟩`, a view taken before and one after -/
+example : ∃ (s : St Nat Nat) (log : List (Nat × Obs Nat Nat)), Run ⟨0, 0⟩ s log ∧ s.hist = [⟨7, 7⟩, ⟨0, 0⟩] ∧
+    log = [(1, .locked 7 7), (0, .lockfree 0), (0, .locked 0 0)] := by
+  let s0 : Shared Nat Nat := ⟨0, 0⟩
+  have r0 := Run.nil (s0 := s0)
+  have r1 := Run.silent r0 (CStep.rlock0 _ rfl)
+  have r2 := Run.obs r1 (CStep.rread _ 1 rfl)
+  have r3 := Run.silent r2 (CStep.runlock1 _ rfl)
+  have r4 := Run.silent r3 (CStep.wlock _ 5 rfl rfl)
+  have r5 := Run.silent r4 (CStep.work _ 5 s0 s0 (fun _ => ⟨7, 7⟩) rfl)
+  have r6 := Run.silent r5 (CStep.sync _ 5 s0 ⟨7, 7⟩ rfl)
+  have r7 := Run.obs r6 (CStep.lfread _)
+  have r8 := Run.silent r7 (CStep.commit _ 5 s0 ⟨7, 7⟩ rfl)
+  have r9 := Run.silent r8 (CStep.wunlock _ 5 rfl)
+  have r10 := Run.silent r9 (CStep.rlock0 _ rfl)
+  have r11 := Run.obs r10 (CStep.rread _ 1 rfl)
+  exact ⟨_, _, r11, rfl, rfl⟩
+
+/-- **The state-install window of the protocol BEFORE the repair, as a kernel-checked schedule**
+(kept as the model-level counterpart of finding C17-txhashset-write-window; harness mode `zipwin`
+reproduced it on the real code and now guards against a relapse).
+Before the repair `Chain::txhashset_write` committed the LMDB half of the new state without holding
+the txhashset lock (`installCommit`) and swapped the MMR half in later (`installSwap`).  Schedule: a reader takes
+`txhashset.read()`, the install commits `⟨7, 7⟩` to LMDB, the reader reads: it observes LMDB part 7
+with MMR part 0 - a pair that is NO state of the commit history `[⟨7,7⟩, ⟨0,0⟩]`; after the swap (the
+reader gone) the shared state is the committed `⟨7, 7⟩`.  With the txhashset write lock held across
+both halves the op is an ordinary writer of the model and `state_install_views_old_or_new` excludes this. -/
+theorem state_install_window_witness :
+    let s1 : St Nat Nat := { (start ⟨0, 0⟩) with ts := .readers 1 }
+    let s2 := installCommit s1 ⟨7, 7⟩
+    CStep (start ⟨0, 0⟩) none s1 ∧
+    CStep s2 (some (.locked 7 0)) s2 ∧
+    s2.hist = [⟨7, 7⟩, ⟨0, 0⟩] ∧
+    (∀ c ∈ s2.hist, ¬ obsMatches (.locked 7 0) c) ∧
+    (installSwap { s2 with ts := .free } ⟨7, 7⟩).sh = ⟨7, 7⟩ := by
+  refine ⟨CStep.rlock0 _ rfl, CStep.rread _ 1 rfl, rfl, ?_, rfl⟩
+  intro c hc
+  have hh : (installCommit ({ (start (⟨0, 0⟩ : Shared Nat Nat)) with ts := .readers 1 }) ⟨7, 7⟩).hist
+      = [⟨7, 7⟩, ⟨0, 0⟩] := rfl
+  rw [hh] at hc
+  simp only [List.mem_cons, List.not_mem_nil, or_false] at hc
+  rcases hc with rfl | rfl <;> simp [obsMatches]
 
 end
 
